@@ -138,4 +138,39 @@ inline void run_nsz(const json& sc) {
     emit(r);
 }
 
+// {"kind":"bigfock","id":..,"M":m,"rows":[[monomial [[c,idx]..], [occupied modes]], ...]}: action of single monomials on Fock states with many
+// modes (more than one word of the underlying bitset), through Operator::actRight(ket) of the product operator
+inline void run_bigfock(const json& sc) {
+    int M = sc.at("M").get<int>();
+    json r = {{"e", "Big"}, {"id", sc.value("id", json())}, {"M", M}};
+    json rows = json::array();
+    std::string ex = classify_exception([&] {
+        for (const json& row : sc.at("rows")) {
+            Operator O;
+            bool first = true;
+            for (const json& f : row[0]) {
+                Operator x = f[0].get<int>() ? OperatorPresets::c_dag(f[1].get<int>()) : OperatorPresets::c(f[1].get<int>());
+                if (first) { O = x; first = false; } else O = O * x;
+            }
+            FockState ket(M, 0);
+            for (const json& k : row[1]) ket[k.get<int>()] = 1;
+            json img_occ = json::array();
+            long sign = 0;
+            if (!first) {
+                // the product is normal-ordered by the library; its action is the sum over the resulting monomials
+                std::map<FockState, MelemType> img = O.actRight(ket);
+                if (img.size() == 1 && std::abs(std::abs(mre(img.begin()->second)) - 1.0) < 1e-12 && mim(img.begin()->second) == 0) {
+                    sign = mre(img.begin()->second) > 0 ? 1 : -1;
+                    const FockState& b = img.begin()->first;
+                    for (int k = 0; k < M; ++k) if (b[k]) img_occ.push_back(k);
+                } else if (img.size() > 1) sign = 99;       // a monomial maps a basis state to at most one basis state
+            }
+            rows.push_back(json::array({row[0], row[1], sign, img_occ}));
+        }
+    });
+    r["rows"] = rows;
+    if (!ex.empty()) r["ex"] = ex;
+    emit(r);
+}
+
 } // namespace pv
